@@ -1,6 +1,6 @@
 (* Props/C14.v — the theorems that decide property C14 (caches never change a
    verdict or an answer).  Statements only. *)
-From CKB Require Import Tx.Cache Tx.CacheProofs.
+From CKB Require Import Tx.SysCache Tx.SysCacheProofs Tx.Cache Tx.CacheProofs.
 
 (* Verdicts, fees, cycles.  [content] (capacity, scripts -> cycles, fee, DAO
    lock size) is a function of what the witness hash commits to; the cache is
@@ -182,6 +182,29 @@ Theorem c14_example_system_cell :
   system_cells_unspendable (fun op => if N.eqb op 5 then Some 10%N else None) (fun op => N.leb op 6).
 Proof. exact system_cell_example. Qed.
 
+(* SYSTEM_CELL with dep groups and the MAX_DEP_EXPANSION_LIMIT accounting: with a
+   map that is consistent with the provider (what setup_system_cell_cache builds),
+   the dependency side of resolve_transaction returns the same cells and groups in
+   the same order, or the same error, as without the map — for every dep list
+   (cached deps repeated, other dep type on a cached out point, user groups, dead /
+   unknown / unparsable deps, any total expansion). *)
+Theorem c14_system_cell_groups_transparent : forall c p deps,
+  cache_consistent c p -> resolve_warm c p deps = resolve_cold p deps.
+Proof. exact system_cell_cache_transparent. Qed.
+
+Theorem c14_resolved_deps_at_most_limit : forall p deps slots cells groups,
+  resolve_cold p deps = inr (slots, cells, groups) -> length cells <= max_dep_expansion.
+Proof. exact resolved_deps_at_most_limit. Qed.
+
+(* were a cached group to cost one slot instead of one per member, a transaction
+   with 2049 expanded deps would resolve with the cache and not without *)
+Theorem c14_group_cost_one_refuted :
+  cache_consistent ex_cache ex_provider /\
+  outcome_of (resolve_cold ex_provider ex_deps) = OErr 4 0 /\
+  (exists cells groups, outcome_of (resolve_warm_from (fun _ => 1) ex_cache ex_provider ex_deps (max_dep_expansion, [], [])) = OOk cells groups /\ length cells = 2049) /\
+  outcome_of (resolve_warm ex_cache ex_provider ex_deps) = OErr 4 0.
+Proof. exact (conj ex_cache_consistent group_cost_one_refuted). Qed.
+
 Redirect "out/C14.c14_verdict_cache_transparent" Print Assumptions c14_verdict_cache_transparent.
 Redirect "out/C14.c14_cache_sound_invariant" Print Assumptions c14_cache_sound_invariant.
 Redirect "out/C14.c14_hit_requires_same_wtx" Print Assumptions c14_hit_requires_same_wtx.
@@ -202,3 +225,6 @@ Redirect "out/C14.c14_example_history_ok" Print Assumptions c14_example_history_
 Redirect "out/C14.c14_example_history" Print Assumptions c14_example_history.
 Redirect "out/C14.c14_example_store_history" Print Assumptions c14_example_store_history.
 Redirect "out/C14.c14_example_system_cell" Print Assumptions c14_example_system_cell.
+Redirect "out/C14.c14_system_cell_groups_transparent" Print Assumptions c14_system_cell_groups_transparent.
+Redirect "out/C14.c14_resolved_deps_at_most_limit" Print Assumptions c14_resolved_deps_at_most_limit.
+Redirect "out/C14.c14_group_cost_one_refuted" Print Assumptions c14_group_cost_one_refuted.
